@@ -95,7 +95,7 @@ def r2_dispatch_order(ctx, cfg='A'):
     """per dispatch step (see rules/dispatch.py): the clock is set exactly once, to the time component of the frame fetched in this
     very step, only off the limit path, before that frame's event is handled"""
     ctx.set_rule('C02.R2', cfg)
-    from .dispatch import dispatch_iterations, HANDLE
+    from .dispatch import dispatch_iterations, HANDLE, frame_component
     f, its, form = dispatch_iterations(ctx, cfg)
     if f is None:
         ctx.violation('anchor:dispatch_event', 'unresolved-anchor Runtime::dispatch_event'); return
@@ -117,7 +117,8 @@ def r2_dispatch_order(ctx, cfg='A'):
             pos = max(k for k, b in enumerate(it.path) if b == site.b)
             t = peel(f.expr_operand_on_path(site.args[0], it.path, pos, 'T'))
             fb = ev[i_fet[-1]][1].b if i_fet and i_fet[-1] < i else None
-            ok = t[0] == 'field' and t[2] == '1' and peel(t[1])[0] == 'call' and peel(t[1])[1] == FETCH and peel(t[1])[3] == fb
+            fc = frame_component(f.program, t)
+            ok = fc is not None and fc[0] == 'time' and fc[1][0] == 'call' and fc[1][1] == FETCH and fc[1][3] == fb
             ctx.check(ok, 'set_now-operand', "the clock is set to the time component of this iteration's fetch_next result", site.where(), show(t)[:200])
             before = [e[1] for e in ev[:i] if e[0] == 'atom']
             off = any(a and a[0] == 'bool' and a[1][0] == 'call' and a[1][1] == 'des::runtime::limit::RuntimeLimit::applies' and a[2] is False for a in before)
@@ -128,7 +129,8 @@ def r2_dispatch_order(ctx, cfg='A'):
                 ctx.check(j > i, 'set_now-before-handle', 'the clock write precedes the Event::handle call', h.where())
                 posh = max(k for k, b in enumerate(it.path) if b == h.b)
                 evt = peel(f.expr_operand_on_path(h.args[0], it.path, posh, 'T'))
-                ok2 = ok and evt[0] == 'field' and evt[2] == '0' and peel(evt[1])[0] == 'call' and peel(evt[1])[1] == FETCH and peel(evt[1])[3] == fb
+                fe = frame_component(f.program, evt)
+                ok2 = ok and fe is not None and fe[0] == 'event' and fe[1][0] == 'call' and fe[1][1] == FETCH and fe[1][3] == fb
                 ctx.check(ok2, 'handle-same-frame', 'the event handled is the one fetched together with the time the clock was set to', h.where(), show(evt)[:200])
     ctx.floor('clock writes in the dispatch step', n_set, 1)
     ctx.floor('dispatching paths', n_handle, 1)
